@@ -61,7 +61,7 @@ static inline Xml::Variant& X(char* p) { return *(Xml::Variant*)p; }
 static inline P& PT(char* p) { return *(P*)p; }
 
 static String mkString(const std::string& s) { return String(s.c_str(), s.size()); }
-static std::string genStr(uint64_t v) { static const char* w[] = {"", "a", "Bc", "hello", "World42", "xyzxyzxyzxyzxyzxyz", "MiXeD Case 0123456789 abcdefghijklmnopqrstuvwxyz"}; std::string s = w[v % 7]; if ((v / 7) % 3 == 0) s += std::to_string(v % 1000); return s; }
+static std::string genStr(uint64_t v) { static const char* w[] = {"", "a", "Bc", "hello", "World42", "xyzxyzxyzxyzxyzxyz", "MiXeD Case 0123456789 abcdefghijklmnopqrstuvwxyz"}; std::string s = w[v % 7]; if ((v / 7) % 3 == 0) s += std::to_string(v % 1000); if ((v / 21) % 4 == 0) s += (v / 84) % 2 ? " \t" : " "; if ((v / 168) % 5 == 0) s = " " + s; return s; }
 
 // build a real value in *p (raw memory) from a model value
 static void construct(char* p, const Val& v);
@@ -153,7 +153,14 @@ static void mutate(int w, int j, uint64_t kind, uint64_t param) {
   switch (C.fam) {
   case F_STRING: {
     String& s = S(p);
-    switch (kind % 9) {
+    switch (kind % 16) {
+    case 9: { s.trim(); static const char ws[] = " \t\r\n\v"; size_t b = 0, e = m.s.size(); while (b < e && strchr(ws, m.s[b])) ++b; while (e > b && strchr(ws, m.s[e - 1])) --e; if (b == 0 && e < m.s.size()) probe("trim_trailing_only"); m.s = m.s.substr(b, e - b); break; }
+    case 10: s.toUpperCase(); for (auto& c : m.s) if (c >= 'a' && c <= 'z') c -= 32; break;
+    case 11: { static const char* nd[] = {"a", "xyz", "l", "42"}; std::string needle = nd[param % 4]; s.replace(mkString(needle), mkString(gs)); std::string out; size_t pos = 0; for (;;) { size_t f = m.s.find(needle, pos); if (f == std::string::npos) { out += m.s.substr(pos); break; } out += m.s.substr(pos, f - pos); out += gs; pos = f + needle.size(); } m.s = out; break; }
+    case 12: if (param % 2) { s.append(gs.data(), gs.size()); m.s += gs; } else { s.prepend(gs.data(), gs.size()); m.s = gs + m.s; } break;
+    case 13: { s.printf("%s-%d", gs.c_str(), (int)(param % 1000)); m.s = gs + "-" + std::to_string(param % 1000); break; }
+    case 14: { s.append(mkString(param % 2 ? "  " : " \t\n")); m.s += param % 2 ? "  " : " \t\n"; break; }
+    case 15: { List<String> toks; toks.append(mkString(gs)); toks.append(mkString("mid")); if (param % 2) toks.append(S(p)); std::string third = m.s; s.join(toks, ','); m.s = gs + ",mid"; if (param % 2) m.s += "," + third; break; }
     case 0: s.append(mkString(gs)); m.s += gs; break;
     case 1: s.prepend(mkString(gs)); m.s = gs + m.s; break;
     case 2: { char* c = s; if (!m.s.empty()) { c[0] = '#'; m.s[0] = '#'; } break; }
@@ -169,7 +176,7 @@ static void mutate(int w, int j, uint64_t kind, uint64_t param) {
     Variant& v = V(p);
     Val child; child.t = (param % 2) ? Val::STR : Val::INT; child.s = gs; child.i = (long)(param % 1000);
     static const char* const collide[4] = {"kamak", "kbmbk", "kcmck", "kdmdk"};   /* same length, first, middle and last character: one hash bucket chain */
-    switch (kind % 11) {   // (assigning a *container* taken from inside the own payload, v = v.toMap()[k].toMap(), is caller misuse as for any container and is not generated)
+    switch (kind % 14) {   // (assigning a *container* taken from inside the own payload, v = v.toMap()[k].toMap(), is caller misuse as for any container and is not generated)
     case 7: { // assign from a handle that lives inside the own payload (e.g. walking down a tree): v = v.toList().front()
       if ((m.t == Val::LIST || m.t == Val::ARR || m.t == Val::MAP) && !m.kids.empty()) { const Variant& cv = v; if (m.t == Val::LIST) v = cv.toList().front(); else if (m.t == Val::ARR) v = cv.toArray()[0]; else v = *cv.toMap().begin(); Val c = m.kids[0].second; m = c; probe("assign_from_nested_handle"); }
       break; }
@@ -187,6 +194,13 @@ static void mutate(int w, int j, uint64_t kind, uint64_t param) {
     case 9: { /* remove one key of a map payload */
       if (m.t == Val::MAP && !m.kids.empty()) { size_t at = (size_t)(param % m.kids.size()); std::string key = m.kids[at].first; v.toMap().remove(mkString(key)); m.kids.erase(m.kids.begin() + at); probe("map_key_removed"); }
       break; }
+    case 11: { /* take the contents of a list payload out with swap, drop them, go on using the list (its spare cells must have moved along with its blocks) */
+      { List<Variant> tmp; v.toList().swap(tmp); if (m.t == Val::LIST && !m.kids.empty()) probe("payload_container_swapped_out"); }
+      v.toList().append(mkVariant(child)); m = Val(); m.t = Val::LIST; m.kids.push_back({"", child}); break; }
+    case 12: { { Array<Variant> tmp; v.toArray().swap(tmp); if (m.t == Val::ARR && !m.kids.empty()) probe("payload_container_swapped_out"); }
+      v.toArray().append(mkVariant(child)); m = Val(); m.t = Val::ARR; m.kids.push_back({"", child}); break; }
+    case 13: { { HashMap<String, Variant> tmp; v.toMap().swap(tmp); if (m.t == Val::MAP && !m.kids.empty()) probe("payload_container_swapped_out"); }
+      std::string key; { Host h; key = "k" + std::to_string(++C.uniq); } v.toMap().append(mkString(key), mkVariant(child)); m = Val(); m.t = Val::MAP; m.kids.push_back({key, child}); break; }
     case 10: { /* assign from a String handle that lives inside the own payload: v = v.toList().front().toString() */
       if ((m.t == Val::LIST || m.t == Val::ARR || m.t == Val::MAP) && !m.kids.empty()) {
         Variant* first; if (m.t == Val::LIST) first = &v.toList().front(); else if (m.t == Val::ARR) first = &v.toArray()[0]; else { HashMap<String, Variant>::Iterator it = v.toMap().begin(); first = &*it; }
@@ -200,7 +214,8 @@ static void mutate(int w, int j, uint64_t kind, uint64_t param) {
   case F_XML: {
     Xml::Variant& x = X(p);
     static const char* const collide[4] = {"kamak", "kbmbk", "kcmck", "kdmdk"};
-    switch (kind % 9) {
+    switch (kind % 10) {
+    case 9: { if (m.t == Val::XELEM) { Xml::Element& e = x.toElement(); { List<Xml::Variant> tmp; e.content.swap(tmp); if (!m.kids.empty()) probe("payload_container_swapped_out"); } Val child; child.t = Val::XTEXT; child.s = gs; e.content.append(mkXml(child)); m.kids.clear(); m.kids.push_back({"", child}); } break; }
     case 5: { std::string key = collide[param % 4]; Xml::Element& e = x.toElement(); e.attributes.append(mkString(key), mkString(gs)); if (m.t != Val::XELEM) { m = Val(); m.t = Val::XELEM; }
       bool have = false; for (auto& kv : m.attrs) if (kv.first == key) { kv.second = gs; have = true; probe("map_key_overwritten"); } if (!have) m.attrs.push_back({key, gs});
       break; }
@@ -316,7 +331,7 @@ static void generate(RunSpec& s, int tier) {
     for (int i = 0; i < n; ++i) {
       Op o; o.task = w; o.a[0] = (int64_t)r(k); o.a[1] = (int64_t)r(k); o.a[2] = (int64_t)r(1000); o.a[3] = (int64_t)r(1000);
       uint64_t c = r(100);
-      if (mapFocus && r(10) < 7) { c = 50; o.a[1] = (int64_t)r(2); bool ins = r(5) < 3; o.a[2] = fam == F_VARIANT ? (int64_t)(11 * r(50) + (ins ? 8 : 9)) : (int64_t)(9 * r(50) + (ins ? 5 : 6)); }
+      if (mapFocus && r(10) < 7) { c = 50; o.a[1] = (int64_t)r(2); bool ins = r(5) < 3; o.a[2] = fam == F_VARIANT ? (int64_t)(14 * r(50) + (ins ? 8 : 9)) : (int64_t)(10 * r(50) + (ins ? 5 : 6)); }
       o.code = c < 18 ? O_COPY : c < 34 ? O_ASSIGN : c < 42 ? O_RECREATE : c < 66 ? O_MUTATE : c < 74 ? O_SWAP : c < 84 ? O_SEND : c < 94 ? O_RECV : c < 97 ? O_READ : O_WORK;
       if (o.code == O_ASSIGN && r(10) == 0) o.a[1] = o.a[0];
       s.plan.push_back(o);
